@@ -129,3 +129,15 @@ package bgv
 //@ noescape Evaluator.Rescale op0
 //@   property C09
 
+
+// integer encoder, opaque at the abstract level (used by the masked transform of mpbgv, property C16)
+//@ afunc Encoder.RingT2Q
+//@   trusted opaque at the abstract level: lifts a plaintext polynomial of R_t to R_Q (coefficient domain, not Montgomery)
+//@   assigns pQ
+//@   ensures dom(pQ) == 0 && mexp(pQ) == 0
+//@ afunc Encoder.EncodeRingT
+//@   trusted opaque at the abstract level: writes the plaintext polynomial only
+//@   assigns pT
+//@ afunc Encoder.DecodeRingT
+//@   trusted opaque at the abstract level: writes the caller's value slice only
+//@   assigns
